@@ -71,8 +71,8 @@ CLAIMED['C06'] = dict(
     ref='DESIGN.md section 3, C06')
 
 CLAIMED['C16'] = dict(
-    text='Decision level: bounded model checking of the three statements of Function::codegen that decide static-function wrapping (early exit for internal linkage, should_wrap with its link_name attribute, registration in items_to_serialize), verbatim, everything between them symbolic: a static function gets a binding iff it is wrapped (wrap_static_fns on, not variadic), the binding names <name><suffix>, exactly one wrapper is registered for it, and nothing is registered for external linkage. Finding F10 (a static function whose binding already carries a #[link_name] - always the case in C++ mode - is bound but not wrapped) is reported as KNOWN-FINDING; its region is exact and the complement is checked strictly.',
-    note='Trusted: Kani/CBMC; name / attribute stubs. Not covered: the C text of a wrapper (codegen/serialize.rs), that it compiles against the headers, behavioural equality of wrapper and wrapped function, utils::serialize_items (file assembly), va_list wrappers beyond their registration.',
+    text='Decision level: bounded model checking of the three statements of Function::codegen that decide static-function wrapping (early exit for internal linkage, should_wrap with its link_name attribute, registration in items_to_serialize), verbatim, everything between them symbolic: a static function gets a binding iff it is wrapped (wrap_static_fns on, not variadic), the binding names <name><suffix>, exactly one wrapper is registered for it, and nothing is registered for external linkage; the suffix on the Rust side is the configured one (what serialize.rs appends on the C side). Kernel c_spelling: the three match tables of impl CSerialize for Type write, for every IntKind / FloatKind, the ISO C spelling of that very type (or refuse). Kernel wrapper_file: the assembly statements of utils::serialize_items emit one #include per input header before any wrapper and exactly one wrapper per registered item, in order. Finding F10 (a static function whose binding already carries a #[link_name] - always the case in C++ mode - is bound but not wrapped) is reported as KNOWN-FINDING; its region is exact and the complement is checked strictly.',
+    note='Trusted: Kani/CBMC; name / attribute stubs. Not covered: the C text of a wrapper beyond built-in type spellings (declarators for pointers, arrays, function pointers, qualifiers), that it compiles against the headers, behavioural equality of wrapper and wrapped function, utils::serialize_items (file assembly), va_list wrappers beyond their registration.',
     ref='DESIGN.md section 3, C16')
 
 NOT_APPLICABLE = {
